@@ -480,14 +480,16 @@ def run_conversion_case(dcmstack, case):
     dss = [build_ds(f) for f in case['files']]
     absf = [abstract_gfile(dcmstack, f, ds, case) for f, ds in zip(case['files'], dss)]
     st, wid, img, err, calls = run_to_nifti(dcmstack, case, False, None, datasets=dss)
-    obs = {'files': absf, 'err': err, 'ids': [wid[id(fi[0])] for fi in st._files_info], 'dirty': bool(st._shape_dirty),
+    obs = {'files': absf, 'ids': [wid[id(fi[0])] for fi in st._files_info], 'dirty': bool(st._shape_dirty),
            'ncalls': len(calls), 'stimes_arg': calls[-1] if calls else None}
+    if err is not None:
+        obs['err'] = err          # (the key is present only when to_nifti raised)
     if img is not None:
         obs.update(observe_image(img))
     if 'vo2' in case and err is None:
         dss2 = [build_ds(f) for f in case['files']]
         st2, wid2, img2, err2, calls2 = run_to_nifti(dcmstack, case, False, None, vo=case['vo2'], datasets=dss2)
-        obs['alt'] = {'err': err2}
+        obs['alt'] = {} if err2 is None else {'err': err2}
         if img2 is not None:
             obs['alt'].update(observe_image(img2))
     return obs
